@@ -840,6 +840,10 @@ class Explorer:
                     self.havoc_ref(st, args[i], (path, i), site)
             self.write_place(st, fr, dest, res, site)
             return self.after_call(st, fr, target)
+        if callee is not None and args and all(a[0] == "c" or (a[0] == "agg" and not a[3]) for a in args) and len(stack) < 10:
+            # constant folding through small in-crate functions (conversion tables, try_from on constants)
+            self.stats["inlined"].add(path)
+            return self.enter(st, stack, fr, callee, args, dest, target, None)
         if callee is not None and self.inline_pred(self, callee, info):
             self.stats["inlined"].add(path)
             return self.enter(st, stack, fr, callee, args, dest, target, None)
@@ -972,6 +976,8 @@ class Explorer:
                 return ret(UNIT())
             return None
         # ---- conversions keep provenance
+        if p in ("std::convert::Into::into", "std::convert::From::from") and path in self.F.fns and "mqtt::result_code" in path:
+            return None  # in-crate reason-code conversions are inlined (decided by their own match tables)
         if p in ("std::convert::Into::into", "std::convert::From::from") :
             return ret(SYM(self.cap(("into", args[0], info["targs"][-1] if p.endswith("into") else info["targs"][0]))))
         if p == "std::clone::Clone::clone":
@@ -1004,6 +1010,11 @@ class Explorer:
                     self.finish_path(st, None, "diverge")
                     return "stop"
                 return ret(SYM(self.cap(("field", v[1], 0))))
+            return None
+        if p in ("std::result::Result::<T, E>::unwrap_or", "std::option::Option::<T>::unwrap_or"):
+            v = args[0]
+            if v[0] == "agg":
+                return ret(v[3][0] if v[2] in ("Ok", "Some") else args[1])
             return None
         if p == "std::ops::Try::branch":
             v = args[0]
@@ -1236,6 +1247,8 @@ def default_inline(ex, callee, info):
     if BUILDER_RE.search(s):
         return True
     if callee.get("name") == "builder" and callee["path"].startswith("mqtt::packet::"):
+        return True
+    if callee.get("name") == "from" and "mqtt::result_code" in callee["path"]:
         return True
     return False
 
